@@ -1084,10 +1084,9 @@ def is_blocking(node: ast.AST, parent_type: ast.AST = None) -> bool:
 
     if isinstance(node, ast.For):
         try:
-            iterator = literal_value(node.iter)
-        except ValueError:
-            return False
-        if not any(True for _ in iterator):
+            if not any(True for _ in literal_value(node.iter)):
+                return False
+        except (ValueError, TypeError):  # TypeError: The value is known, but cannot be iterated
             return False
 
     if isinstance(node, (ast.For, ast.While)):
